@@ -274,6 +274,16 @@ def step (sh : Shared) (th : Thread) : Option Out :=
   | .lock r async =>
     match th.frames with
     | f :: fs =>
+      if !sh.live f.ctx then
+        -- the publish was cancelled while the goroutine waited for the mutex: the mutex is taken and given back at
+        -- once, the handler is skipped
+        match th.job, fs with
+        | some j, [] =>
+          -- async goroutine: pass the turn on, arrive at "async.end"
+          let sh := if j.reg.seq then { sh with serving := setKV sh.serving j.reg.rid (lookupD sh.serving j.reg.rid + 1) } else sh
+          some ⟨sh, { th with frames := [], pc := .aend }, [], []⟩
+        | _, _ => some (dispatch sh th f fs [] (fuelFor f))
+      else
       some ⟨{ sh.noteEnter r with held := r.rid :: sh.held }, { th with frames := { f with handler := some r, body := r.body } :: fs, pc := .enter r }, [],
             [.enter r.rid f.ty f.v async]⟩
     | [] => none
